@@ -14,7 +14,7 @@ ASSUMPTIONS = [
 ]
 
 ORACLE = {"status", "offs", "lopad", "lprops", "counts", "mseq", "mra", "mzip", "mzipra", "rstatus", "zseq", "zra",
-          "zras", "lseq", "lra", "ldeg", "verify", "leftovers", "grt", "input"}
+          "zras", "lseq", "lra", "lfrom", "ldeg", "verify", "leftovers", "grt", "input"}
 CORR = {"gbits", "llen", "lbits", "lpad", "lobits"}
 
 
